@@ -34,9 +34,22 @@ def harness_cmd(path, prop):
     return [path]
 
 
+# Which variant of the Lean model mirrors the repository under test.  The printer model is the
+# repaired one (fix_ntop.diff, in /repo as 4fad189).  The parser model is the repository's
+# current code; switch PTON_MODEL to "fixed" in the commit that applies fix_pton_cidr.diff (F26).
+# All theorems are proved for both parser variants (`ptonWith fx`).
+NTOP_MODEL = "fixed"
+PTON_MODEL = "fixed"
+
+
 def model_args(prop):
-    # VERIF_ADDR_MODEL=pinned compares against the model of the pinned (unrepaired) printer
-    return ["pinned"] if os.environ.get("VERIF_ADDR_MODEL") == "pinned" else ["model"]
+    # VERIF_ADDR_MODEL=pinned / VERIF_ADDR_PTON=fixed override (self-validation against other trees)
+    args = ["model"]
+    if os.environ.get("VERIF_ADDR_MODEL", NTOP_MODEL) == "pinned":
+        args.append("ntop-pinned")
+    if os.environ.get("VERIF_ADDR_PTON", PTON_MODEL) == "fixed":
+        args.append("pton-fixed")
+    return args
 
 
 def spec_args(prop):
@@ -95,14 +108,29 @@ def correspondence_name(prop):
 
 
 def theorems(prop):
-    common = []
+    A = "Iauthd.Addr."
     if prop == "C12":
-        return common + [
-            "Iauthd.Addr.ntopPinned_F7",
-            "Iauthd.Addr.ntopPinned_F8",
-        ]
-    return common + [
-    ]
+        return [A + t for t in (
+            # headline
+            "ntop_shape", "ntop_no_colon", "ntop_len", "ntop_ipv4",
+            "hex_roundtrip", "dec_roundtrip", "ntop_ref", "ntop_pton", "ntop_canon", "print_parse_print",
+            # building blocks worth naming
+            "runSearch_sound", "printLoop_run", "printLoop_rest", "pton_full", "pton_layout", "pton_quad",
+            "finishShift_spec", "pton_safe",
+            # the pinned printer is wrong (F7, F8), the repaired one is right on the witnesses
+            "ntopPinned_F7", "ntopPinned_F8", "ntopPinned_F7_not_roundtrip", "ntopPinned_F8_rejected",
+            "ntop_F7_fixed", "ntop_F8_fixed",
+        )] + ["Iauthd.Properties.C12", "Iauthd.Properties.C12_idempotent", "Iauthd.Properties.C12_judge_on_model"]
+    return [A + t for t in (
+        "mask_spec", "mask_spec_bool", "checkMaskL_spec",
+        "pton_safe", "v6Loop_safe", "ip4Loop_safe", "partStart_ne_none", "finishShift_safe",
+        "pton_uninit_only_after_blank",
+        "star", "cidr4", "wild4", "pton_quad", "ntop_pton", "ntop_ref",
+        # concrete facts about the unrepaired parser (recorded, not alarmed unless C13 says so)
+        "pton_F23", "pton_uninit_witness", "pton_F26_cidr_rejected", "pton_F26_bits_unwritten", "pton_trailing_colon",
+        "ptonFixed_F26_cidr", "ptonFixed_F26_plain", "ptonFixed_still_rejects",
+    )] + ["Iauthd.Properties.C13_mask", "Iauthd.Properties.C13_mask_judge_on_model", "Iauthd.Properties.C13_safe",
+          "Iauthd.Properties.C13_agree_partial", "Iauthd.Properties.C13_netmask_partial"]
 
 
 def lean_imports(prop):
@@ -114,7 +142,10 @@ def lean_targets(prop):
 
 
 def lean_modules(prop):
-    return ["Iauthd.Addr.Model", "Iauthd.Addr.Spec", "Iauthd.Addr.Proofs", "Iauthd.Properties." + prop]
+    return ["Iauthd.Addr.Model", "Iauthd.Addr.Spec", "Iauthd.Addr.ProofsMask", "Iauthd.Addr.ProofsSafe",
+            "Iauthd.Addr.ProofsShift", "Iauthd.Addr.ProofsNtop", "Iauthd.Addr.ProofsText", "Iauthd.Addr.ProofsRef",
+            "Iauthd.Addr.ProofsPton", "Iauthd.Addr.ProofsPton4", "Iauthd.Addr.ProofsRound",
+            "Iauthd.Addr.ProofsMaskText", "Iauthd.Addr.Proofs", "Iauthd.Properties." + prop]
 
 
 def checker_cmd(prop):
@@ -292,6 +323,7 @@ def gen_c12(tier, seed):
 
 
 ALPHABET = "019af:./* "
+ALPHABET7 = "1a:./* "     # length-7 strings (thorough tier) use this reduced alphabet
 
 
 def _fmt_v6_variants(rng, gs):
@@ -375,12 +407,16 @@ def gen_c13(tier, seed):
         ops.append(_mask(a, m, n))
     cases += _batch("c13/mask-random", ops, {"gen": "mask-random"}, per=3000)
     # (3) all strings over the address alphabet up to a length bound
-    maxlen = 5 if tier == "quick" else 7
+    #     quick: length <= 5; thorough: length <= 6, and length 7 over the reduced alphabet
+    maxlen = 5 if tier == "quick" else 6
     ops = []
     for ln in range(0, maxlen + 1):
         for tup in itertools.product(ALPHABET, repeat=ln):
             s = "".join(tup)
-            ops += _string_ops(s, all_flags=(ln <= maxlen - 1 if tier == "quick" else ln <= 5))
+            ops += _string_ops(s, all_flags=(ln <= 4 if tier == "quick" else ln <= 5))
+    if tier != "quick":
+        for tup in itertools.product(ALPHABET7, repeat=7):
+            ops += _string_ops("".join(tup), all_flags=False)
     cases += _batch("c13/strings-exhaustive", ops, {"gen": "strings-exhaustive", "exhaustive": True}, per=4000)
     # (4) grammar-derived netmask texts with boundary lengths
     texts = []
@@ -510,7 +546,7 @@ def coverage(prop, tier, cases, impl, model, spec):
                     m = [int(x, 16) for x in f[9:17]]
                     d = [x ^ y for x, y in zip(a, m)]
                     nz = [i for i, x in enumerate(d) if x]
-                    if len(nz) == 1 and d[nz[0]] & (d[nz[0]] - 1) == 0:
+                    if len(nz) == 1 and d[nz[0]] & (d[nz[0]] - 1) == 0 and int(f[17]) <= 130:
                         mask_points.add((nz[0], d[nz[0]], int(f[17])))
                     if nz:
                         nontrivial += 1
@@ -546,9 +582,9 @@ def coverage(prop, tier, cases, impl, model, spec):
     else:
         cov.update({
             "rule": "masks: every (group, single-bit / zero / all-ones difference, length 0..130) exhaustively plus random triples near the first differing bit; "
-                    "strings: every string over %r up to length %d with libc + flag combinations, grammar-derived CIDR/wildcard texts at boundary lengths %s, "
+                    "strings: every string over %r up to length %s with libc + flag combinations, grammar-derived CIDR/wildcard texts at boundary lengths %s, "
                     "RFC 4291 variants of random addresses, mutated valid texts and long random strings. "
-                    "non-trivial = mask op with a difference, or pton op that consumed input" % (ALPHABET, 5 if tier == "quick" else 7, BOUNDARY_LEN),
+                    "non-trivial = mask op with a difference, or pton op that consumed input" % (ALPHABET, "5" if tier == "quick" else "6 (and every length-7 string over %r)" % ALPHABET7, BOUNDARY_LEN),
             "mask_single_bit_points_covered": "%d/%d" % (len(mask_points), 8 * 16 * 131),
             "pton_outcomes_by_flags_and_text_class": tags,
             "uninitialised_local_reads_seen": uninit,
